@@ -201,7 +201,7 @@ func compileAndRun(src []byte) compiled {
 		vp := bcl.VerifProgParts(p)
 		cp.code, cp.consts = vp.Code, vp.Constants
 	}
-	cp.res = Interpret(src)
+	cp.res = InterpretReused(src)
 	if cp.res.Panic != "" {
 		cp.pan, cp.panWhat = panicSig(cp.res.Panic, cp.res.Stack), cp.res.Panic
 	}
@@ -484,7 +484,7 @@ func init() {
 				toks := []lang.Tok{lang.W("print"), {Kind: lang.TStr, Text: lit}, lang.W("def"), lang.W("b"), lang.P("{"), lang.W("f"), lang.P("="), {Kind: lang.TStr, Text: lit}, lang.P("}")}
 				src := lang.Layout(toks, hostileLayout(r), r).Src
 				c.Begin(i)
-				res := Interpret(src)
+				res := InterpretReused(src)
 				c.Eval(1)
 				ok := res.Panic == "" && res.Err == nil && res.Out == val+"\n" && len(res.Blocks) == 1 && res.Blocks[0].Fields["f"] == val
 				if !ok {
@@ -613,7 +613,7 @@ func c08Case(c *core.Ctx, i int64, toks []lang.Tok, orig *lang.Program, r *rand.
 		c.Max("max_source_offset", int64(len(src)))
 	}
 	// prediction check through the reference model (positions only)
-	res := Interpret(src)
+	res := InterpretReused(src)
 	c.Eval(1)
 	mm, unspec := CompareInterpret(cs, res)
 	if unspec {
@@ -757,7 +757,7 @@ func c08Limits(c *core.Ctx, i int64, k int) {
 		kind = "nested_operands"
 	}
 	src := []byte(b.String())
-	res := Interpret(src)
+	res := InterpretReused(src)
 	c.Eval(1)
 	if res.Panic != "" {
 		c.Violation(panicSig(res.Panic, res.Stack), "panic at an implementation limit: "+res.Panic, map[string]any{"kind": kind})
